@@ -31,6 +31,53 @@ func textReaderFuncs(p *Program) []*ssa.Function {
 			out = append(out, fn)
 		}
 	}
+	// the token-processing helpers the readers hand their text to (registry lookups by name that also accept
+	// numbers, small parse helpers): static callees in the module that take a string, two levels deep
+	have := map[*ssa.Function]bool{}
+	for _, fn := range out {
+		have[fn] = true
+	}
+	frontier := append([]*ssa.Function{}, out...)
+	for depth := 0; depth < 2; depth++ {
+		var next []*ssa.Function
+		for _, fn := range frontier {
+			allInstrs(fn, func(in ssa.Instruction) {
+				call, ok := in.(*ssa.Call)
+				if !ok {
+					return
+				}
+				sc := call.Call.StaticCallee()
+				if sc == nil || sc.Blocks == nil || have[sc] || sc.Synthetic != "" {
+					return
+				}
+				if pk := idOf(sc).pkg; pk != ttlvPath && pk != modPath {
+					return
+				}
+				takesString := false
+				for _, prm := range sc.Params {
+					if b, ok := prm.Type().Underlying().(*types.Basic); ok && b.Info()&types.IsString != 0 {
+						takesString = true
+					}
+				}
+				if !takesString {
+					return
+				}
+				usesStrconv := false
+				allInstrs(sc, func(i2 ssa.Instruction) {
+					if c2, ok := i2.(*ssa.Call); ok && callID(&c2.Call).pkg == "strconv" {
+						usesStrconv = true
+					}
+				})
+				if !usesStrconv {
+					return
+				}
+				have[sc] = true
+				out = append(out, sc)
+				next = append(next, sc)
+			})
+		}
+		frontier = next
+	}
 	sort.Slice(out, func(i, j int) bool { return out[i].String() < out[j].String() })
 	// generic helpers: analyse one instantiation per origin (the bodies are identical), not the uninstantiated origin
 	var dedup []*ssa.Function
@@ -148,6 +195,7 @@ func runC04(r *Run, verifDir string) {
 	r.Assume = append(r.Assume, "registry names are lexically safe for XML element names and JSON strings (decided by C17.N3)", "encoding/xml escapes attribute values correctly; encoding/json escapes strings correctly")
 	r.NotCov = append(r.NotCov, "byte-identity of the binary re-encoding after an XML/JSON round trip (value level)", "element-for-element reproduction of foreign conformant XML (OASIS vectors): needs execution", "Unicode coverage of the escapers", "2^52 threshold arithmetic beyond the hex-parse rule")
 	c.l1Hex("C04.L1")
+	c.trimCutset("C04.L1")
 	c.l1Separators()
 	c.l2Base("C04.L2")
 	c.l3JSONStrings()
@@ -170,6 +218,7 @@ func runC18(r *Run, verifDir string) {
 	c.x4BinaryReaderTotal()
 	c.x5TextVerbatim()
 	c.x6DelegatingEncoders()
+	c.x7JSONNumberRange()
 	c.x2WriterPanics()
 	c.l1Hex("C18.X3")
 	c.l2Base("C18.X3")
@@ -182,6 +231,10 @@ func (c *lexCtx) l1Hex(rule string) {
 	r := c.r
 	if rule == "C04.L1" {
 		r.Rule(rule, "hexadecimal spellings are parsed with a parser covering every bit pattern of the target width; written separators/layouts are the ones read", 10)
+	} else if rule == "C17.N10" {
+		r.Rule(rule, "a token is told apart as number or name by its 0x prefix or a failed parse in base 10/16, never by a guessed base or a cutset trim", 8)
+	} else if rule == "C06.D11" {
+		r.Rule(rule, "the text readers turn the number of an operation, object type or other enumeration into the same code whatever its spelling: decimal in base 10, 0x-prefixed in base 16, never a guessed base", 8)
 	} else {
 		r.Rule(rule, "alternative lexical forms land in the canonical domain (hex width, 0x base, seconds)", 14)
 	}
@@ -206,6 +259,10 @@ func (c *lexCtx) l1Hex(rule string) {
 			for _, b := range bases {
 				if b == 16 {
 					base = 16 // one of the bases the call can be made with is hexadecimal: the hex rule applies
+				}
+				if b != 10 && b != 16 {
+					r.Bad(rule, key, call.Pos(), "%s is called with base %d in a text reader: the writers spell numbers in decimal or 0x-prefixed hexadecimal only; base 0 lets strconv guess (a zero-padded decimal such as \"010\" is read as octal 8, \"0b..\", \"0o..\" and digit-group underscores are accepted), any other base misreads every value", id.name, b)
+					return
 				}
 			}
 			if base != 16 {
@@ -1680,5 +1737,238 @@ func (c *lexCtx) x6DelegatingEncoders() {
 		} else {
 			r.OK("C18.X6", key, fn.Pos(), "%d path(s); the value is skipped only as a nil interface or nil pointer", len(paths))
 		}
+	}
+}
+
+// ---------------------------------------------------------------- X7
+
+// x7JSONNumberRange: for the 64-bit quantities the JSON writer spells either as a number or as a hex string
+// (Long Integer, Big Integer), the interval the reader accepts in number form contains the interval the writer emits
+// in number form. Reader side: bounds tests on the result of json.Number.Int64() that dominate the successful
+// return (none: every int64). Writer side: the tests that dominate the creation of the closure emitting decimal
+// digits (on the int64 itself, big.Int.Cmp with a package variable initialised by big.NewInt(constant), IsInt64()).
+func (c *lexCtx) x7JSONNumberRange() {
+	r, p := c.r, c.p
+	r.Rule("C18.X7", "JSON number form: the reader accepts every value the writer emits as a number (Long Integer, Big Integer)", 2)
+	const minI, maxI = int64(-1 << 63), int64(1<<63 - 1)
+	bigGlobalConst := func(v ssa.Value) (int64, bool) {
+		ld, ok := v.(*ssa.UnOp)
+		if !ok {
+			return 0, false
+		}
+		g, ok := ld.X.(*ssa.Global)
+		if !ok || g.Pkg == nil {
+			return 0, false
+		}
+		var k int64
+		found := false
+		if init := g.Pkg.Func("init"); init != nil {
+			allInstrs(init, func(in ssa.Instruction) {
+				st, ok := in.(*ssa.Store)
+				if !ok || st.Addr != ssa.Value(g) {
+					return
+				}
+				if call, ok := st.Val.(*ssa.Call); ok && callID(&call.Call).is("math/big", "", "NewInt") {
+					if kk, ok := constIntVal(call.Call.Args[0]); ok {
+						k, found = kk, true
+					}
+				}
+			})
+		}
+		return k, found
+	}
+	for _, name := range []string{"LongInteger", "BigInteger"} {
+		key := "ttlv.json/" + name + "/number-range"
+		rf, wf := p.Func("ttlv", "jsonReader", name), p.Func("ttlv", "jsonWriter", name)
+		if rf == nil || wf == nil {
+			r.Unk("C18.X7", key, token.NoPos, "anchor missing")
+			continue
+		}
+		// reader: n = val.Int64(); bounds at the success return that uses n
+		rlo, rhi := minI, maxI
+		var nVal ssa.Value
+		allInstrs(rf, func(in ssa.Instruction) {
+			if call, ok := in.(*ssa.Call); ok && callID(&call.Call).is("encoding/json", "Number", "Int64") {
+				for _, ref := range *call.Referrers() {
+					if ex, ok := ref.(*ssa.Extract); ok && ex.Index == 0 {
+						nVal = ex
+					}
+				}
+			}
+		})
+		if nVal == nil {
+			r.Unk("C18.X7", key, rf.Pos(), "the number branch of the reader (json.Number.Int64) was not found")
+			continue
+		}
+		// the instruction that consumes n on the success path: a return of n, or big.NewInt(n)
+		var use ssa.Instruction
+		for _, ref := range *nVal.Referrers() {
+			switch x := ref.(type) {
+			case *ssa.Return:
+				use = x
+			case *ssa.Call:
+				if callID(&x.Call).is("math/big", "", "NewInt") {
+					use = x
+				}
+			case *ssa.Phi:
+				use = x
+			}
+		}
+		if use == nil {
+			r.Unk("C18.X7", key, rf.Pos(), "the use of the parsed number on the success path was not found")
+			continue
+		}
+		if lo, hi := boundedBy(nVal, use); lo != nil || hi != nil {
+			if lo != nil {
+				rlo = *lo
+			}
+			if hi != nil {
+				rhi = *hi
+			}
+		}
+		if rlo == minI && rhi == maxI {
+			r.OK("C18.X7", key, rf.Pos(), "the reader accepts every int64 in number form")
+			continue
+		}
+		// writer: the closure that emits decimal digits
+		var mk ssa.Instruction
+		allInstrs(wf, func(in ssa.Instruction) {
+			mc, ok := in.(*ssa.MakeClosure)
+			if !ok {
+				return
+			}
+			dec := false
+			allInstrs(mc.Fn.(*ssa.Function), func(i2 ssa.Instruction) {
+				if call, ok := i2.(*ssa.Call); ok {
+					id := callID(&call.Call)
+					if id.is("strconv", "", "AppendInt") || id.is("math/big", "Int", "Append") || id.is("math/big", "Int", "String") || id.is("strconv", "", "FormatInt") {
+						dec = true
+					}
+				}
+			})
+			if dec {
+				mk = in
+			}
+		})
+		if mk == nil {
+			r.Unk("C18.X7", key, wf.Pos(), "the reader bounds the number form to [%d, %d] but the writer's decimal branch was not found", rlo, rhi)
+			continue
+		}
+		wlo, whi, known := minI, maxI, true
+		if name == "LongInteger" {
+			if lo, hi := boundedBy(wf.Params[2], mk); lo != nil || hi != nil {
+				if lo != nil {
+					wlo = *lo
+				}
+				if hi != nil {
+					whi = *hi
+				}
+			}
+		} else {
+			for _, dc := range dominatingConds(mk.Block()) {
+				switch x := dc.cond.(type) {
+				case *ssa.Call:
+					// IsInt64() true: all of int64
+					continue
+				case *ssa.BinOp:
+					call, ok := x.X.(*ssa.Call)
+					if !ok || !callID(&call.Call).is("math/big", "Int", "Cmp") {
+						continue
+					}
+					if z, ok := constIntVal(x.Y); !ok || z != 0 {
+						known = false
+						continue
+					}
+					k, ok := bigGlobalConst(call.Call.Args[1])
+					if !ok {
+						known = false
+						continue
+					}
+					op := x.Op
+					if !dc.outcome {
+						switch op {
+						case token.LSS:
+							op = token.GEQ
+						case token.LEQ:
+							op = token.GTR
+						case token.GTR:
+							op = token.LEQ
+						case token.GEQ:
+							op = token.LSS
+						default:
+							known = false
+							continue
+						}
+					}
+					// value OP k
+					switch op {
+					case token.LSS:
+						if k-1 < whi {
+							whi = k - 1
+						}
+					case token.LEQ:
+						if k < whi {
+							whi = k
+						}
+					case token.GTR:
+						if k+1 > wlo {
+							wlo = k + 1
+						}
+					case token.GEQ:
+						if k > wlo {
+							wlo = k
+						}
+					}
+				}
+			}
+		}
+		switch {
+		case !known:
+			r.Unk("C18.X7", key, mk.Pos(), "the reader bounds the number form to [%d, %d]; the writer's number range could not be computed", rlo, rhi)
+		case wlo < rlo || whi > rhi:
+			r.Bad("C18.X7", key, posOr(mk.Pos(), wf.Pos()), "the JSON writer spells a %s in [%d, %d] as a number but the reader only accepts numbers in [%d, %d]: an accepted value in between is re-encoded to a document the decoder rejects", name, wlo, whi, rlo, rhi)
+		default:
+			r.OK("C18.X7", key, rf.Pos(), "writer emits numbers in [%d, %d], reader accepts [%d, %d]", wlo, whi, rlo, rhi)
+		}
+	}
+}
+
+func posOr(a, b token.Pos) token.Pos {
+	if a.IsValid() {
+		return a
+	}
+	return b
+}
+
+// trimCutset: strings.Trim/TrimLeft/TrimRight take a SET of characters, not a prefix. In the token readers a
+// multi-character, non-whitespace cutset is the classic slip for TrimPrefix: TrimLeft(s, "0x") also eats the leading
+// letters of names such as X_509CertificateIdentifier, which are then taken for malformed numbers.
+func (c *lexCtx) trimCutset(rule string) {
+	r := c.r
+	n := 0
+	for _, fn := range textReaderFuncs(c.p) {
+		allInstrs(fn, func(in ssa.Instruction) {
+			call, ok := in.(*ssa.Call)
+			if !ok {
+				return
+			}
+			id := callID(&call.Call)
+			if (id.pkg != "strings" && id.pkg != "bytes") || (id.name != "Trim" && id.name != "TrimLeft" && id.name != "TrimRight") || len(call.Call.Args) != 2 {
+				return
+			}
+			k, ok := call.Call.Args[1].(*ssa.Const)
+			if !ok {
+				return
+			}
+			set := constStringVal(k)
+			if len(set) < 2 || strings.TrimSpace(set) == "" {
+				return
+			}
+			n++
+			r.Bad(rule, c.key(fn, rule+":cutset"), call.Pos(), "%s strips the character SET %q with %s.%s where a prefix is meant: every leading character of the set is removed, so a registered name that begins with one of them (X_509CertificateIdentifier, ...) loses its first letters and is no longer read back as its number", fnKey(fn), set, id.pkg, id.name)
+		})
+	}
+	if n == 0 {
+		r.OK(rule, "ttlv.readers/no-cutset-trim", token.NoPos, "no multi-character cutset trim in the token readers")
 	}
 }
